@@ -320,3 +320,9 @@ def number_stream(rng, count):
     for e in (-1074, -1073, -1023, -1022, -1021, -52, -1, 0, 1, 31, 32, 52, 53, 54, 63, 64, 1023): out += [2.0 ** e, bits_dbl(dbits(2.0 ** e) + 1)]
     while len(out) < count: out.append(rand_double(rng))
     return out
+
+
+def tree_of_line(line, first):
+    """the tree given by the tokens of a case line from position `first` on"""
+    t, _ = parse_dump(line.split(' '), first)
+    return t
